@@ -57,7 +57,7 @@ var alsoRuns = map[string][]borrow{
 	// the marked entry lands in a store that honours its contract (C09, F2/F3); the duplicate-detection marker advances for a
 	// skipped entry (C10.U3); every entry, marked or not, is re-filed before it is applied or skipped and is folded by
 	// compaction, and restore rebuilds from it (C02.N1/N3/N4/N5); the marker and everything else survives a snapshot (C03)
-	"C07": {{prop: "C09"}, {prop: "C18", rules: []string{"F1", "F2", "F3"}}, {prop: "C10", rules: []string{"U3"}}, {prop: "C02", rules: []string{"N1", "N3", "N4", "N5"}}, {prop: "C03"}},
+	"C07": {{prop: "C09"}, {prop: "C18", rules: []string{"F1", "F2", "F3"}}, {prop: "C10", rules: []string{"U3"}}, {prop: "C02", rules: []string{"N1", "N3", "N4", "N5", "N7", "N8"}}, {prop: "C03"}},
 	// "under every interleaving": the lock discipline of the output stream (C20 restricted to package outputstream)
 	// … and "returns exactly what was added": the batch codec is symmetric (C18.F4)
 	// … and readers always call the current stream (C04.P7)
